@@ -40,7 +40,7 @@ End S.
    before Unsubscribe(s) was *called*.  API-level schedule (5 events): Subscribe returns; Publish returns
    (message accepted by the queue); Unsubscribe is called and processed; the worker takes the message
    and finds no subscriber; everything is idle - the message is lost. *)
-Definition queue_cfg : cfg := mkCfg 1 false 0 false None PBlock true 0 0 false.
+Definition queue_cfg : cfg := mkCfg 1 false 0 false None PBlock true 0 0 false false.
 
 Definition inflight_statement : Prop :=
   forall c wake st s m, lossless c -> wf_cfg c -> sigbuf c = true -> skipstop c = false ->
@@ -108,7 +108,7 @@ Qed.
    With the original unbuffered channel (sigbuf = false) a Stats call whose context ends between
    handing its closure to the loop and receiving the answer leaves the loop blocked in
    `signal <- stats` for ever: after Stop nothing can move and the loop never calls wg.Done. *)
-Definition unbuffered_cfg : cfg := mkCfg 1 false 0 false None PBlock false 0 0 false.
+Definition unbuffered_cfg : cfg := mkCfg 1 false 0 false None PBlock false 0 0 false false.
 
 Definition stats_wedge_schedule : list event :=
   [ECall 0 OpStats; EStats1 0; ECallerCtx 0; ECallerAbort 0; ECancel; EWExit 0].
@@ -204,7 +204,7 @@ Qed.
    /repo).  With the original reaction (skipstop = true) the single worker of a broker over an
    output-filtered queue is gone after the first rejected message; the next accepted message stays in
    the buffer for ever although the context is live and nothing else can happen. *)
-Definition outfilter_orig_cfg : cfg := mkCfg 1 false 0 false None PBlock true 0 2 true.
+Definition outfilter_orig_cfg : cfg := mkCfg 1 false 0 false None PBlock true 0 2 true false.
 
 Definition outfilter_schedule : list event :=
   [ECall 0 (OpSub 0); ESubSend 0; ECall 1 (OpPub 2); EPub 1; ELoopPush; ESkip 0;
@@ -226,7 +226,7 @@ Proof.
 Qed.
 
 (* the repaired reaction on the same inputs: the rejected message is skipped, the next one delivered *)
-Definition outfilter_cfg : cfg := mkCfg 1 false 0 false None PBlock true 0 2 false.
+Definition outfilter_cfg : cfg := mkCfg 1 false 0 false None PBlock true 0 2 false false.
 
 Example output_filter_repaired :
   match run outfilter_cfg wake_exact init
